@@ -26,7 +26,7 @@ ASSUMPTIONS = [
     "per-step variance compared ddof-agnostically (5/N relative)",
     "stand-in Metropolis kernels",
 ]
-REQUIRED_COUNTERS = ["runs", "ratios_recomputed", "sums_checked", "ratio_events", "metamorphic_pairs"]
+REQUIRED_COUNTERS = ["runs", "ratios_recomputed", "sums_checked", "metamorphic_pairs"]
 
 
 def cases(tier, seed):
@@ -137,6 +137,18 @@ def run_case(case):
         counters["second_runs_on_same_sampler"] += 1
         partners.append("again")
         recorded.judge_evidence(again, where + " [second fresh run on the same sampler object]", viol, counters)
+    if cfg["sampler"] in ("smc", "emcee_smc") and T >= 3 and len(base.payloads) >= 3 and g.random() < 0.5:
+        # a clean continuation from a checkpoint in which the (then unused) n_samples argument differs from the size of the
+        # checkpointed population: every ratio is still the mean over the population it was computed on
+        pay = base.payloads[len(base.payloads) // 2 - 1]
+        cfg_n = dict(cfg, n=int(cfg["n"] * g.choice([2, 5])) + 3)
+        cont = recorded.record(cfg_n, resume_from=pay["bytes"], rng=np.random.default_rng(cfg["rng_seed"] + 31) if cfg["sampler"] == "smc" else None)
+        if cont.exc is not None:
+            raise cont.exc
+        cont.resumed_from_iteration = int(pay["iteration"])
+        counters["continued_with_another_n_samples_argument"] += 1
+        partners.append("othern")
+        recorded.judge_evidence(cont, where + f" [continued from iteration {pay['iteration']} with n_samples={cfg_n['n']} (population {cfg['n']})]", viol, counters)
     if cfg["sampler"] == "smc" and T >= 3 and g.random() < 0.5:
         # a fault in the middle of an iteration, then continuation from the *live* state dictionary of the last checkpoint
         # (what a user who keeps the dictionary handed to the callback resumes from)
